@@ -125,16 +125,50 @@ def proof_gate(thorough=False):
 def run_driver(lines):
     if not os.path.exists(DRIVER):
         infra('driver binary missing (run setup_cmd)')
-    r = subprocess.run([DRIVER], input='\n'.join(lines) + '\n', capture_output=True, text=True)
-    if r.returncode != 0:
-        infra('driver crashed: ' + r.stderr[-2000:])
+    # split at scenario boundaries into chunks and run the (single-threaded) driver on them in parallel
+    blocks, cur = [], []
+    for l in lines:
+        if l.startswith('#scenario') and cur:
+            blocks.append(cur)
+            cur = []
+        cur.append(l)
+    if cur:
+        blocks.append(cur)
+    nchunks = max(1, min(pool.NPROC, len(blocks)))
+    chunks = [[] for _ in range(nchunks)]
+    sizes = [0] * nchunks
+    for b in sorted(blocks, key=len, reverse=True):
+        i = sizes.index(min(sizes))
+        chunks[i] += b
+        sizes[i] += len(b)
+    procs = [subprocess.Popen([DRIVER], stdin=subprocess.PIPE, stdout=subprocess.PIPE, stderr=subprocess.PIPE, text=True) for _ in chunks]
+    import threading
+    outs = [None] * nchunks
+
+    def feed(i):
+        outs[i] = procs[i].communicate('\n'.join(chunks[i]) + '\n')
+    ths = [threading.Thread(target=feed, args=(i,)) for i in range(nchunks)]
+    for t in ths:
+        t.start()
+    for t in ths:
+        t.join()
+    stdout = ''
+    for i, p in enumerate(procs):
+        if p.returncode != 0:
+            infra('driver crashed: ' + (outs[i][1] or '')[-2000:])
+        stdout += outs[i][0]
+
+    class R:
+        pass
+    r = R()
+    r.stdout = stdout
     per = defaultdict(lambda: {'rej': [], 'obs': [], 'vio': [], 'end': None})
     cov = {}
     for line in r.stdout.splitlines():
         k, _, rest = line.partition(' ')
         if k == 'COV':
             a, b = rest.rsplit(' ', 1)
-            cov[a] = int(b)
+            cov[a] = cov.get(a, 0) + int(b)
             continue
         sid, _, rest = rest.partition(' ')
         if k == 'REJ':
